@@ -4,11 +4,20 @@
  *     create  <text>                 mpt_iterator_create(text)
  *     values  <text>                 mpt_iterator_values(text)
  *     string  <text>                 mpt_iterator_string(text, NULL)
+ *     strsep  <sep>;<text>           mpt_iterator_string(text, sep)      sep = n (NULL) | - (empty) | hex
+ *     rset    <variant>              mpt_range_set(&r, &val) on r = {7, 9}; first token RS:<ret>:<min>:<max>
+ *                it;<string|values>;<text>   TypeIteratorPtr value (source becomes slot 0; second token U:<next value>)
+ *                itn                         TypeIteratorPtr value holding a null pointer
+ *                vec;<bytes>;<d,d,..|->      vector('d') value: iov_len = bytes, exact-size block filled with the doubles
+ *                vecb;<bytes>                vector('d') value with iov_base = NULL
+ *                vecn                        vector('d') value with a null address
+ *                type;<s|d>                  value of another type
  *     linear  <len>,<a>,<b>          mpt_iterator_linear(len, a, b)
  *     boundary <len>,<l>,<i>,<r>     mpt_iterator_boundary(len, l, i, r)
  *     poly    <text>;<grid>          mpt_iterator_poly(text, &grid)      grid = n | b,b,b...
  *     profile <text>;<grid>          mpt_iterator_profile(&grid, text)
  *     buffer  <bytes> / args <bytes> mpt_meta_buffer / mpt_meta_arguments over a 'c' array
+ *                                    (<bytes>@<t>: content traits of type t instead of 'c')
  *     from    <lin|range|fac>;<string|values>;<text>   _mpt_iterator_linear/_range/_factor with an iterator value
  *                                    (second token U:<next value of the source>)
  *     vlin    <points>,<ld>,<min>,<max>       mpt_values_linear on an exact-size heap block
@@ -18,6 +27,9 @@
  *     v value + documented conversion to double     a advance     r reset
  *     c clone slot 0 into slot 1   C clone slot 1 into slot 1
  *     k mpt_iterator_consume(it,'d')   w documented loop (at most 40 elements)   s read as string
+ *     z mpt_iterator_consume(it, 0, 0) (skip)      m conversions of the metatype itself
+ *     text iterators only: y element as keyword ('k')   q the same without target   x element as 'c' vector
+ *     o the same without target   u element as uint32   j documented loop reading keywords   l .. reading vectors
  * Output token per op, first token is the construction result (see ml/c19_driver.ml). */
 #include "common.h"
 #include <errno.h>
@@ -82,6 +94,7 @@ static int grid_of(MPT_STRUCT(array) *arr, char *spec)
 
 static struct { MPT_INTERFACE(metatype) *mt; MPT_INTERFACE(iterator) *it; } slot[2];
 static int bufkind, strkind;
+static const MPT_STRUCT(buffer) *bufref;   /* buffer of the array handed to mpt_meta_buffer/_arguments */
 
 static void set_slot(int i, MPT_INTERFACE(metatype) *mt)
 {
@@ -133,7 +146,6 @@ static void op_walk(MPT_INTERFACE(iterator) *it)
 	double vals[WALK_MAX]; int n = 0, i; char end[16] = "L";
 	while (n < WALK_MAX) {
 		const MPT_STRUCT(value) *val; double d; int r;
-		if (bufkind) { vh_tok("-"); return; }
 		r = read_value(it, &d, &val);
 		if (!val) { strcpy(end, "N"); break; }
 		if (r < 0) { sprintf(end, "E%d", r); break; }
@@ -149,6 +161,135 @@ static void op_walk(MPT_INTERFACE(iterator) *it)
 	}
 }
 
+/* ---- text iterator: element conversions other than double */
+#define VEC_C MPT_type_toVector('c')
+static MPT_INTERFACE(convertable) *elem_conv(MPT_INTERFACE(iterator) *it, int *none)
+{
+	const MPT_STRUCT(value) *val = it->_vptr->value(it);
+	*none = !val;
+	if (!val || val->_type != MPT_ENUM(TypeConvertablePtr)) return 0;
+	return *((MPT_INTERFACE(convertable) * const *) val->_addr);
+}
+static void put_vec(const struct iovec *vec)
+{
+	if (vec->iov_len > 100000) vh_add("wild");
+	else if (!vec->iov_base) vh_add("null/%d", (int) vec->iov_len);
+	else vh_hex(vec->iov_base, vec->iov_len);
+}
+static void op_elem(MPT_INTERFACE(iterator) *it, char op)
+{
+	MPT_INTERFACE(convertable) *cv;
+	int none, r;
+	if (!strkind) { vh_tok("-"); return; }
+	cv = elem_conv(it, &none);
+	if (none) { vh_tok("N"); return; }
+	if (!cv) { vh_tok("-"); return; }
+	switch (op) {
+	case 'y': {
+		const char *key = 0;
+		r = cv->_vptr->convert(cv, 'k', &key);
+		if (r < 0) vh_tok("Y:%d", r);
+		else { vh_tok("Y:%d:", r); if (key) vh_hex(key, strlen(key)); else vh_add("null"); }
+		break;
+	}
+	case 'q': vh_tok("Yn:%d", cv->_vptr->convert(cv, 'k', 0)); break;
+	case 'x': {
+		struct iovec vec = { 0, 0 };
+		r = cv->_vptr->convert(cv, VEC_C, &vec);
+		if (r < 0) vh_tok("X:%d", r);
+		else { vh_tok("X:%d:", r); put_vec(&vec); }
+		break;
+	}
+	case 'o': vh_tok("Xn:%d", cv->_vptr->convert(cv, VEC_C, 0)); break;
+	case 'u': {
+		uint32_t u = 0xdeadbeef;
+		r = cv->_vptr->convert(cv, 'u', &u);
+		if (r < 0) vh_tok("G:%d", r);
+		else if (u == 0xdeadbeef) vh_tok("G:%d:unset", r);
+		else vh_tok("G:%d:%" PRIu32, r, u);
+		break;
+	}
+	}
+}
+/* the documented loop reading every element as keyword ('j') or as 'c' vector ('l') */
+static void op_walk_text(MPT_INTERFACE(iterator) *it, char op)
+{
+	char *el[WALK_MAX]; size_t ln[WALK_MAX];
+	int n = 0, i; char end[16] = "L";
+	if (!strkind) { vh_tok("-"); return; }
+	while (n < WALK_MAX) {
+		MPT_INTERFACE(convertable) *cv; int none, r;
+		cv = elem_conv(it, &none);
+		if (none || !cv) { strcpy(end, "N"); break; }
+		if (op == 'j') {
+			const char *key = 0;
+			if ((r = cv->_vptr->convert(cv, 'k', &key)) < 0) { sprintf(end, "E%d", r); break; }
+			ln[n] = key ? strlen(key) : 0;
+			el[n] = malloc(ln[n] + 1); if (key) memcpy(el[n], key, ln[n]);
+		} else {
+			struct iovec vec = { 0, 0 };
+			if ((r = cv->_vptr->convert(cv, VEC_C, &vec)) < 0) { sprintf(end, "E%d", r); break; }
+			ln[n] = vec.iov_len > 100000 ? 0 : vec.iov_len;
+			el[n] = malloc(ln[n] + 1); if (ln[n]) memcpy(el[n], vec.iov_base, ln[n]);
+		}
+		n++;
+		if ((r = it->_vptr->advance(it)) < 0) { sprintf(end, "e%d", r); break; }
+		if (!r) { strcpy(end, "Z"); break; }
+	}
+	vh_tok("%c:%d:%s:", op == 'j' ? 'J' : 'H', n, end);
+	if (!n) vh_add("-");
+	for (i = 0; i < n; i++) { if (i) vh_add(","); vh_hex(el[i], ln[i]); free(el[i]); }
+}
+/* conversions of the metatype itself (parseConv / bufferConv / bufferConvArgs) */
+static void op_meta(int s)
+{
+	MPT_INTERFACE(metatype) *mt = slot[s].mt;
+	const uint8_t *fmt = 0;
+	void *p;
+	double d;
+	int r;
+	if (!strkind && !bufkind) { vh_tok("-"); return; }
+	vh_tok("M:%d", MPT_metatype_convert(mt, 0, 0));
+	r = MPT_metatype_convert(mt, 0, &fmt);
+	vh_add(":%d/", r); if (fmt) vh_hex(fmt, strlen((const char *) fmt)); else vh_add("null");
+	p = 0; r = MPT_metatype_convert(mt, MPT_ENUM(TypeIteratorPtr), &p);
+	vh_add(":%d/%d", r, r < 0 ? -1 : p == (void *) slot[s].it);
+	vh_add(":%d", MPT_metatype_convert(mt, MPT_ENUM(TypeIteratorPtr), 0));
+	vh_add(":%d", MPT_metatype_convert(mt, 'd', &d));
+	if (strkind) {
+		/* the content of the 's' and vector conversions is not observed (see docs/notes_C19.md) */
+		const char *str = 0; struct iovec vec = { 0, 0 };
+		vh_add(":%d", MPT_metatype_convert(mt, 's', &str));
+		vh_add(":%d", MPT_metatype_convert(mt, VEC_C, &vec));
+		vh_add(":%d", MPT_metatype_convert(mt, MPT_ENUM(TypeVector), &vec));
+		vh_add(":%d", MPT_metatype_convert(mt, VEC_C, 0));
+		return;
+	}
+	if (bufkind) {
+		struct iovec vec = { 0, 0 };
+		const char *str = (const char *) &d;
+		p = &d; r = MPT_metatype_convert(mt, MPT_ENUM(TypeMetaPtr), &p);
+		vh_add(":%d/%d", r, r < 0 ? -1 : p == (void *) mt);
+		vh_add(":%d", MPT_metatype_convert(mt, MPT_ENUM(TypeMetaPtr), 0));
+		p = &d; r = MPT_metatype_convert(mt, MPT_ENUM(TypeBufferPtr), &p);
+		vh_add(":%d/%d", r, r < 0 ? -1 : p == (void *) bufref);
+		vh_add(":%d", MPT_metatype_convert(mt, MPT_ENUM(TypeBufferPtr), 0));
+		r = MPT_metatype_convert(mt, VEC_C, &vec);
+		vh_add(":%d/", r); if (r < 0) vh_add("-"); else put_vec(&vec);
+		vec.iov_base = 0; vec.iov_len = 0;
+		r = MPT_metatype_convert(mt, MPT_ENUM(TypeVector), &vec);
+		vh_add(":%d/", r); if (r < 0) vh_add("-"); else put_vec(&vec);
+		vh_add(":%d", MPT_metatype_convert(mt, VEC_C, 0));
+		r = MPT_metatype_convert(mt, 's', &str);
+		vh_add(":%d/", r);
+		if (r < 0) vh_add("-");
+		else if (!str) vh_add("null");
+		else if (bufref && memchr(str, 0, bufref->_used - (str - (const char *) (bufref + 1)))) vh_hex(str, strlen(str));
+		else { vh_add("open:"); vh_hex(str, bufref ? bufref->_used : 0); }
+		vh_add(":%d", MPT_metatype_convert(mt, 's', 0));
+	}
+}
+
 static void run_case(int ntok, char **tok)
 {
 	const char *kind = tok[1];
@@ -161,6 +302,64 @@ static void run_case(int ntok, char **tok)
 	if (!strcmp(kind, "create")) mt = mpt_iterator_create(text_of(arg));
 	else if (!strcmp(kind, "values")) mt = mpt_iterator_values(text_of(arg));
 	else if (!strcmp(kind, "string")) { strkind = 1; mt = mpt_iterator_string(text_of(arg), 0); }
+	else if (!strcmp(kind, "strsep")) {
+		char *sep = strtok(arg, ";"), *txt = strtok(0, ";");
+		strkind = 1;
+		mt = mpt_iterator_string(text_of(txt), text_of(sep));
+	}
+	else if (!strcmp(kind, "rset")) {
+		/* mpt_range_set called directly */
+		char *var = strtok(arg, ";");
+		MPT_STRUCT(range) r;
+		MPT_STRUCT(value) val;
+		MPT_INTERFACE(metatype) *smt = 0;
+		MPT_INTERFACE(iterator) *sit = 0;
+		struct iovec vec = { 0, 0 };
+		const char *str = "1 2";
+		double d = 3;
+		int ret;
+		r.min = 7; r.max = 9;
+		if (!strcmp(var, "it")) {
+			char *sk = strtok(0, ";"), *txt = strtok(0, ";");
+			char *text = text_of(txt);
+			smt = sk[0] == 's' ? mpt_iterator_string(text, 0) : mpt_iterator_values(text);
+			if (sk[0] == 's') strkind = 1;
+			if (smt) MPT_metatype_convert(smt, MPT_ENUM(TypeIteratorPtr), &sit);
+			MPT_value_set(&val, MPT_ENUM(TypeIteratorPtr), &sit);
+		}
+		else if (!strcmp(var, "itn")) MPT_value_set(&val, MPT_ENUM(TypeIteratorPtr), &sit);
+		else if (!strcmp(var, "vec")) {
+			size_t bytes = strtoul(strtok(0, ";"), 0, 0), i = 0;
+			char *ds = strtok(0, ";"), *q;
+			uint8_t *blk = malloc(bytes ? bytes : 1);
+			memset(blk, 0x5a, bytes);
+			for (q = strtok(ds, ","); q && strcmp(q, "-"); q = strtok(0, ","), i++) {
+				double x = d_of_tok(q);
+				if ((i + 1) * sizeof(x) <= bytes) memcpy(blk + i * sizeof(x), &x, sizeof(x));
+				else if (i * sizeof(x) < bytes) memcpy(blk + i * sizeof(x), &x, bytes - i * sizeof(x));
+			}
+			vec.iov_base = blk; vec.iov_len = bytes;
+			MPT_value_set(&val, MPT_type_toVector('d'), &vec);
+		}
+		else if (!strcmp(var, "vecb")) {
+			vec.iov_len = strtoul(strtok(0, ";"), 0, 0);
+			MPT_value_set(&val, MPT_type_toVector('d'), &vec);
+		}
+		else if (!strcmp(var, "vecn")) MPT_value_set(&val, MPT_type_toVector('d'), 0);
+		else {
+			char *ty = strtok(0, ";");
+			if (ty[0] == 's') MPT_value_set(&val, 's', &str); else MPT_value_set(&val, 'd', &d);
+		}
+		ret = mpt_range_set(&r, &val);
+		set_slot(0, smt);
+		vh_tok("RS:%d:", ret); put_bits(r.min); vh_add(":"); put_bits(r.max);
+		if (sit) {
+			const MPT_STRUCT(value) *sv; double x; int rr = read_value(sit, &x, &sv);
+			vh_tok("U:");
+			if (!sv) vh_add("N"); else if (rr < 0) vh_add("E%d", rr); else put_double(x);
+		}
+		goto ops;
+	}
 	else if (!strcmp(kind, "linear")) {
 		char *a = strtok(arg, ","), *b = strtok(0, ","), *c = strtok(0, ",");
 		mt = mpt_iterator_linear(strtoul(a, 0, 0), d_of_tok(b), d_of_tok(c));
@@ -179,9 +378,13 @@ static void run_case(int ntok, char **tok)
 		bufkind = 1;
 		if (!strcmp(arg, "n")) mt = kind[0] == 'b' ? mpt_meta_buffer(0) : mpt_meta_arguments(0);
 		else {
-			size_t n; uint8_t *b = vh_unhex(arg, &n);
+			size_t n; uint8_t *b;
+			char *ty = strchr(arg, '@');
+			if (ty) *ty++ = 0;
+			b = vh_unhex(arg, &n);
 			if (!mpt_array_append(&arr, n, b)) { vh_tok("X"); return; }
-			arr._buf->_content_traits = mpt_type_traits('c');
+			arr._buf->_content_traits = mpt_type_traits(ty ? ty[0] : 'c');
+			bufref = arr._buf;
 			mt = kind[0] == 'b' ? mpt_meta_buffer(&arr) : mpt_meta_arguments(&arr);
 			free(b);
 		}
@@ -254,12 +457,15 @@ ops:
 		case 'k': {
 			double d = d_of_bits(UNSET);
 			int r;
-			if (bufkind) { vh_tok("-"); break; }
 			r = mpt_iterator_consume(it, 'd', &d);
 			vh_tok("Q:%d:", r); put_double(d);
 			break;
 		}
 		case 'w': op_walk(it); break;
+		case 'y': case 'q': case 'x': case 'o': case 'u': op_elem(it, op); break;
+		case 'j': case 'l': op_walk_text(it, op); break;
+		case 'm': op_meta(s); break;
+		case 'z': vh_tok("Z:%d", mpt_iterator_consume(it, 0, 0)); break;
 		case 's': {
 			const MPT_STRUCT(value) *val = it->_vptr->value(it);
 			const char *str = 0; int r;
